@@ -1217,9 +1217,12 @@ class _AsyncConnectionWrapper:
 
     def push_selection(self):
         has_expected = len(self.q_expected_select) > 0
-        if has_expected:
+        # Handle every expected selection that is complete (not only the head): a later one may need no new message.
+        while has_expected:
             has_recv_all_expected = len(self.q_msgs) >= self.q_expected_select[0][1]
-            if has_recv_all_expected:
+            if not has_recv_all_expected:
+                break
+            else:
                 ts_next_step, num_msgs = self.q_expected_select.popleft()
                 log_msg = f"blocking={self.connection.blocking} | step_ts={ts_next_step: .2f} | num_msgs={num_msgs}"
                 self.log("push_selection", log_msg, log_level=LogLevel.DEBUG)
@@ -1254,6 +1257,7 @@ class _AsyncConnectionWrapper:
 
                 # Push step (must be called from node thread)
                 self.input_node._submit(self.input_node.push_step)
+                has_expected = len(self.q_expected_select) > 0
 
 
 def update_input_state(input_state: base.InputState, seq: int, ts_sent: float, ts_recv: float, data: Any) -> base.InputState:
